@@ -141,6 +141,30 @@ def _one_program(n, edges, names, mode):
     if len(VL.LOG) != before:
         viols.append(V("C01:rerun:executed-again:" + mode, "re-run/re-read executed %r" % (VL.LOG[before:],), tag=tag))
     order = ">".join(x for e, x in VL.LOG if e == "enter")
+    if mode == "api" and edges and not viols:
+        # references given as command OBJECTS (the API accepts already-clean values): commands are added dependencies-first
+        try:
+            from mpilot.program import Program
+
+            VL.reset()
+            po = Program(libraries=LIB)
+            done = []
+            remaining = list(range(n))
+            while remaining:
+                for i in list(remaining):
+                    if all(p_ in done for c_, p_, _ in edges if c_ == i):
+                        def obj(raw):
+                            return [obj(x) for x in raw] if isinstance(raw, list) else po.commands[raw]
+                        po.add_command(VL.Node, names[i], dict((s_, obj(raw)) for s_, raw in G.slots_of(n, edges, i, names)))
+                        done.append(i)
+                        remaining.remove(i)
+            po.run()
+            vo = _check_final(n, edges, names, po, "api", dict(tag, references_given_as_command_objects=True))
+            for v in vo:
+                v["key"] = v["key"].replace("C01:", "C01:object-references:", 1)
+            viols += vo
+        except Exception as exc:
+            viols.append(V("C01:object-references:raised:%s" % type(exc).__name__, "program built with command objects as references raised %r" % (exc,), tag=tag))
     if mode == "api" and any(k != "d" for _, _, k in edges) and not viols:
         # the same argument objects (lists!) instantiate two programs; the second must be fed by ITS OWN commands
         spec = [dict(G.slots_of(n, edges, i, names)) for i in range(n)]
